@@ -68,6 +68,24 @@ Fixpoint sim_dump (C : cfg) (a : algo) (mask : Z) (tick : Z) (s : sim) (arrivals
       end
   end.
 
+(* the wire form of [sim_main] (Model/Simulator.v): the same two start-up checks around [sim_dump]. A refusal
+   before the first tick is the bare error code (no tick record), as for any error raised in tick 0; with
+   total RAM zero the record of tick 0 is followed by the error code of the utilisation statement *)
+Definition sim_dump_main (C : cfg) (a : algo) (mask : Z) (np : nat) (cpu : Z) (ram : Q)
+           (arrivals : list (list nat)) : list Z * option sim :=
+  let s0 := init_sim C np cpu ram in
+  if negb (pool_count_ok a np) then ([err_code ESchedAssert], None)
+  else if total_ram_zero np ram then
+    match arrivals with
+    | [] => ([], Some s0)
+    | newp :: _ =>
+        match sim_tick C a 0%Z s0 newp with
+        | Err e => ([err_code e], None)
+        | Ok (s1, lg) => (0%Z :: dump_tick mask s1 lg ++ [err_code EOther], None)
+        end
+    end
+  else sim_dump C a mask 0%Z s0 arrivals.
+
 (* arrivals: list of (tick, pipeline); batches for ticks 0 .. n-1 in list order *)
 Fixpoint batches (n : nat) (tick : Z) (arr : list (Z * nat)) : list (list nat) :=
   match n with
@@ -88,7 +106,7 @@ Definition run_sim (l : list Z) : list Z :=
                     cf_overcommit := over; cf_multi := multi; cf_rnd := rnd64 |} in
         (* max_ticks = int(duration * ticks_per_second) *)
         let nticks := Z.to_nat (truncQ (rnd64 (dur * inject_Z tps)%Q)) in
-        let '(o, f) := sim_dump C (algo_of_Z al) mask 0%Z (init_sim C np cpu ram) (batches nticks 0%Z arr) in
+        let '(o, f) := sim_dump_main C (algo_of_Z al) mask np cpu ram (batches nticks 0%Z arr) in
         match f with
         | Some s => o ++ [99%Z] ++ dump_stats (final_stats C dur s)
         | None => o
